@@ -62,7 +62,9 @@ def skeleton_template(name, lvl, v, child, vi=0):
             t["tops"].append(("i", ("b", "b1")))
         t["tops"].append(("i", ("s", "|")))
         if b:
-            body = {1: [("s", "B" + L)], 2: [("u", 0), ("s", "B" + L)], 3: [("s", "B" + L), ("u", 1)]}[b]
+            # overrides read the loop variable and loop.index of a loop that only the ancestor's template contains
+            body = {1: [("s", "B" + L), ("v", "loop.index")], 2: [("u", 0), ("s", "B" + L), ("v", "i")],
+                    3: [("s", "B" + L), ("u", 1)]}[b]
             t["blocks"]["b2"] = (False, False, body)
             t["tops"].append(("i", ("b", "b2")))
     elif v[0] == "nest":
@@ -70,9 +72,11 @@ def skeleton_template(name, lvl, v, child, vi=0):
         t["blocks"]["b2"] = (False, False, [("s", "n" + L), ("u", 0)])
         t["tops"].append(("i", ("b", "b1")))
     else:
-        t["blocks"]["b2"] = (v[0] == "loop", False, [("v", "i"), ("v", "loop.index"), ("s", "l" + L)] + ([("u", 0)] if child else []))
+        t["blocks"]["b2"] = (v[0] == "loop", False, [("v", "i")] + ([("v", "loop.index")] if lvl % 2 else []) + [("s", "l" + L)]
+                             + ([("u", 0)] if child else []))
         # the block site sits directly in the loop body or below an if / with statement
-        w = [None, "if", "with", "ifwith"][(lvl + vi) % 4]
+        ws = [None] + G.WRAPS + ([] if child else ["setblock"])
+        w = ws[(3 * lvl + vi) % len(ws)]
         if w:
             t["wraps"] = {"b2": w}
         t["tops"].append(("i", ("l", "i", ["1", "2"], [("b", "b2"), ("s", ",")])))
@@ -140,7 +144,8 @@ def judge(ctx, h, mline, real, rblocks, srcs, line):
         want = {}
         for ent in filter(None, b.split(";")):
             n, js = ent.split(":")
-            want["b" + n] = [h["chain"][int(j)] for j in js.split(",")]
+            bn = "b" + n
+            want[G.UNI_IDENT.get(bn, bn) if h.get("unicode") else bn] = [h["chain"][int(j)] for j in js.split(",")]
         if want != rblocks:
             ctx.model_mismatch("K-rt context.blocks (stack_order)", case, want, rblocks,
                                None)
@@ -219,7 +224,7 @@ def run(ctx):
     translator_tie(ctx, "inh_translate", "Gen_inh", 3)
 
     # ---------------- exhaustive skeleton
-    D = ctx.size(3, 4)
+    D = 3
     vs = variants(full=True)
     vs_deep = variants(full=ctx.tier == "thorough")
     if ctx.tier == "thorough":
@@ -275,12 +280,17 @@ def run(ctx):
         if not t["blocks"]:
             continue
         b = ctx.rng.choice(list(t["blocks"]))
-        src = G.source(t, 0) + "{% block " + b + " %}dup{% endblock %}"
+        # the same name again, or a different spelling with the same NFKC normal form (Python would make both one
+        # function): either way the two blocks cannot both be rendered and the compiler has to refuse
+        b2 = b if n % 2 else "ｂ" + b[1:]
+        src = G.source(t, 0) + "{% block " + b2 + " %}dup{% endblock %}"
         ctx.case()
         ctx.count("probe-duplicate-block")
         try:
             jinja2.Environment().from_string(src)
-            ctx.reject({"source": src}, f"a template defining block {b!r} twice was accepted", None)
+            ctx.reject({"source": src}, f"a template defining block {b!r} and block {b2!r} (same function name after "
+                                        f"identifier normalisation) was accepted", "C04:block-names-same-normal-form"
+                       if b2 != b else None)
         except jinja2.TemplateSyntaxError:
             ctx.validated()
         except Exception as e:  # noqa
